@@ -176,7 +176,8 @@ func c18zRun(o *out, input string) {
 	}
 	// a handler may return errors that are not gRPC statuses, io.EOF and context.Canceled among them
 	var herr error
-	switch f[1] {
+	hk, _, _ := strings.Cut(f[1], "@")
+	switch hk {
 	case "herr-eof":
 		herr = io.EOF
 	case "herr-canceled":
@@ -232,9 +233,27 @@ func c18zRun(o *out, input string) {
 	if len(f) > 2 && f[2] == "up" {
 		path = "/c18z/up"
 	}
+	if f[1] == "badquery" {
+		path += "?no_such_field=1" // a query the method refuses: either no RPC begins, or the one that began ends
+	}
 	r := httptest.NewRequest("POST", path, bytes.NewReader(body))
 	r.Header.Set("Content-Type", "application/json")
 	r.Header.Set("Content-Encoding", enc)
+	if base, proto_, ok := strings.Cut(f[1], "@"); ok && strings.HasPrefix(base, "herr-") {
+		// the failing handlers also over gRPC / gRPC-web (one empty request message)
+		m := "Un"
+		if len(f) > 2 && f[2] == "up" {
+			m = "Up"
+		}
+		r = httptest.NewRequest("POST", "/verif.c18z.Zsvc/"+m, bytes.NewReader([]byte{0, 0, 0, 0, 0}))
+		if proto_ == "web" {
+			r.Header.Set("Content-Type", "application/grpc-web+proto")
+		} else {
+			r.ProtoMajor, r.ProtoMinor = 2, 0
+			r.Header.Set("Content-Type", "application/grpc")
+			r.Header.Set("Te", "trailers")
+		}
+	}
 	if strings.HasPrefix(f[1], "timeout:") {
 		// a gRPC / gRPC-web call with a grpc-timeout header (malformed ones are refused: no RPC begins,
 		// or the one that began ends)
@@ -271,6 +290,7 @@ func c18zRun(o *out, input string) {
 
 func c18tGen(o *out) {
 	for _, v := range []string{"okgzip", "badgzip", "emptygzip", "truncgzip", "shortgzip", "unknownenc", "herr-eof", "herr-canceled", "herr-plain", "herr-status",
+		"herr-eof@grpc", "herr-canceled@grpc", "herr-plain@grpc", "herr-eof@web", "herr-canceled@web", "herr-status@web", "badquery",
 		"timeout:5x", "timeout:S", "timeout:-1S", "timeout:123456789S", "timeout:1.5S", "timeout:10S", "timeout:5x@web", "timeout:S@web", "timeout:10S@web"} {
 		for _, sh := range []string{"un", "up"} {
 			o.count("C18Z")
